@@ -112,7 +112,7 @@ func VerifC05_Props() {
 	}
 	wantAfter := "after:a=" + afterA + "|b=|fm=|both="
 
-	out, err := zzRender(NewFS(zzC05FS()), body, data)
+	out, err := zzRenderVia(zzEntry(), zzC05FS(), nil, body, data)
 	zzNote("template", body)
 	zzNote("out", out)
 	zzNote("want", want1)
@@ -157,7 +157,7 @@ func VerifC05_Required() {
 		file = "reqfm.vuego"
 	}
 	body := `<div><template include="` + file + `"` + props + `></template></div>`
-	out, err := zzRender(NewFS(zzC05FS()), body, data)
+	out, err := zzRenderVia(zzEntry(), zzC05FS(), nil, body, data)
 	zzNote("template", body)
 	zzNote("out", out)
 	missing := ""
